@@ -46,6 +46,7 @@ def kfFlags (c : GenCfg) : List (String × GenCfg) :=
   (if c.copyEmptyPtrCollDropped then [("copy-empty-ptr-coll-dropped", { c with copyEmptyPtrCollDropped := false })] else []) ++
   (if c.strAppendsOld then [("assign-str-appends", { c with strAppendsOld := false })] else []) ++
   (if c.setLostUpdate then [("set-lost-update", { c with setLostUpdate := false })] else []) ++
+  (if c.setScalarElemLost then [("set-scalar-elem-lost", { c with setScalarElemLost := false })] else []) ++
   (if c.setNilMapStorePanics then [("set-nil-map-store", { c with setNilMapStorePanics := false })] else []) ++
   (if c.setNilLeafPtrPanics then [("set-nil-leaf-ptr", { c with setNilLeafPtrPanics := false })] else []) ++
   (if c.loopRootMapSkipped then [("loop-root-map-skipped", { c with loopRootMapSkipped := false })] else []) ++
@@ -73,6 +74,7 @@ def flagSetters : List (String × (GenCfg → Bool → GenCfg)) := [
   ("copy-empty-ptr-coll-dropped", fun c b => { c with copyEmptyPtrCollDropped := b }),
   ("assign-str-appends", fun c b => { c with strAppendsOld := b }),
   ("set-lost-update", fun c b => { c with setLostUpdate := b }),
+  ("set-scalar-elem-lost", fun c b => { c with setScalarElemLost := b }),
   ("set-nil-map-store", fun c b => { c with setNilMapStorePanics := b }),
   ("set-nil-leaf-ptr", fun c b => { c with setNilLeafPtrPanics := b }),
   ("loop-root-map-skipped", fun c b => { c with loopRootMapSkipped := b }),
